@@ -65,6 +65,14 @@ False alarms corrected (the check, not dask, was wrong):
 * pandas right operand with NaN in its float index: dask calls ``from_pandas(sort=True)`` itself and
   builds divisions from NaN (TypeError at assembly): divisions truthfulness is C41's subject; the
   pandas-operand variant is generated without NA keys.
+* index-index joins whose two index NAMES differ: the name pandas gives the result depends on the data
+  (fast paths of ``Index.join`` for empty / equal / subset indexes keep one of the names, otherwise None);
+  dask renames to the metadata name.  Only equal names (None/None, "key"/"key") are generated.
+* categorical keys are generated for column forms only.  With a CategoricalIndex as join key the first runs
+  showed three different symptoms (TypeError "dtype of categories must be the same" when the computed
+  partitions are assembled and one is empty, result sorted by category codes where pandas sorts by value,
+  index name); the statement does not name categorical indexes and from_pandas/divisions on a
+  CategoricalIndex are C41's subject.  Noted in findings_proposed/C39.md (#8), not monitored.
 * concat axis=1 with non-identical indexes holding duplicates: pandas raises InvalidIndexError;
   non-identical indexes are generated unique.
 * the C41 divisions monitor was dropped from this module (it recomputed every partition; divisions are
@@ -129,21 +137,24 @@ def cases(tier, seed):
                              "lpart": _np_desc(nl), "rpart": _np_desc(nr), "lindex": "range", "rindex": "range"}
                         c.update(_strategy_kw(strategy))
                         yield c
-    # ---- random merges --------------------------------------------------------------------------
-    k = 1700 if tier == "quick" else 40000
-    for _ in range(k):
-        yield _rand_merge(rng, rand_partition_desc)
-    # ---- merge_asof -----------------------------------------------------------------------------
-    k = 450 if tier == "quick" else 10000
-    for _ in range(k):
-        yield _rand_asof(rng)
-    # ---- concat ---------------------------------------------------------------------------------
-    k = 550 if tier == "quick" else 12000
-    for _ in range(k):
-        yield _rand_concat0(rng, rand_partition_desc)
-    k = 350 if tier == "quick" else 8000
-    for _ in range(k):
-        yield _rand_concat1(rng)
+    # ---- seeded random cases, facets interleaved (a run cut short by the time budget still sees every facet) ----
+    scale = 1 if tier == "quick" else 23
+    quota = {"merge": 1700 * scale, "asof": 450 * scale, "concat0": 550 * scale, "concat1": 350 * scale}
+    pattern = ("merge", "asof", "merge", "concat0", "merge", "concat1", "merge", "asof", "merge", "concat0", "merge")
+    left = dict(quota)
+    while any(left.values()):
+        for facet in pattern:
+            if not left[facet]:
+                continue
+            left[facet] -= 1
+            if facet == "merge":
+                yield _rand_merge(rng, rand_partition_desc)
+            elif facet == "asof":
+                yield _rand_asof(rng)
+            elif facet == "concat0":
+                yield _rand_concat0(rng, rand_partition_desc)
+            else:
+                yield _rand_concat1(rng)
 
 
 def _rand_rows(rng):
@@ -168,6 +179,8 @@ def _rand_merge(rng, rand_partition_desc):
     if api == "join":
         if form not in ("ii", "ci") or how == "leftsemi":
             api = "method"
+    if kd == "cat" and form in ("ii", "ci", "ic", "oi"):
+        kd = "str"              # categorical keys: column forms only (see Calibration)
     nl, nr = _rand_rows(rng), _rand_rows(rng)
     big = max(nl, nr, 2)
     universe = rng.choice((2, 3, 5, 8, big, 2 * big))
@@ -187,6 +200,8 @@ def _rand_merge(rng, rand_partition_desc):
          "lpart": rand_partition_desc(rng, nl, allow_unknown=True), "rpart": rand_partition_desc(rng, nr, allow_unknown=True),
          "lindex": rng.choice(("range", "range", "sorted", "dups", "unsorted")),
          "rindex": rng.choice(("range", "range", "sorted", "dups", "unsorted"))}
+    if form == "ii":
+        c["liname"], c["riname"] = rng.choice(((None, None), ("key", "key")))
     if rng.random() < 0.04 and not nakeys:
         c["rpandas"] = True       # right operand is a pandas frame (documented)
     elif form in ("on", "on2", "lr", "lr2") and rng.random() < 0.2:
@@ -600,6 +615,9 @@ def _merge_pred(case, f):
             return "null-fill-upcast-decided-per-partition"
         if exc is not None and form in ("ci", "ic") and kd == "dt" and "Cannot cast DatetimeIndex" in str(exc):
             return "column-index&datetime-key&how-keeps-index-side-rows"
+        if exc is not None and case.get("chain") and f.get("broadcast-join") and "Missing dependency" in str(exc):
+            # the second merge trusts Merge._npartitions / the claimed partitioning of the broadcast join
+            return "broadcast-join-then-merge-on-same-key"
         nl, nr, npart = f.get("nl", 0), f.get("nr", 0), case["npart"]
         bside = "left" if nl < nr else "right"
         flipped = False
@@ -621,8 +639,6 @@ def _merge_pred(case, f):
             return "leftsemi&broadcast-join&left-side-broadcast"
         if form in ("ci", "ic") and kd == "dt" and how in ("outer", "right" if form == "ci" else "left"):
             return "column-index&datetime-key&how-keeps-index-side-rows"
-        if form in ("ii", "ci", "ic", "oi") and kd == "cat":
-            return "categorical-index-key"
         if case.get("chain") and f.get("broadcast-join"):
             return "broadcast-join-then-merge-on-same-key"
         return "other"
@@ -1090,7 +1106,24 @@ ASSUMPTIONS = [
     "how='cross', MultiIndex keys, DataFrame.join with a list of frames, Series/array-valued on= are not generated",
 ]
 BUDGET = {"quick": 90, "thorough": 600}
-FLOORS = {"quick": {"evaluations": 10, "distinct_nontrivial": 5}, "thorough": {"evaluations": 10, "distinct_nontrivial": 5}}
+_QF = {"merge_compared": 950, "plan_broadcast_join": 110, "plan_hash_join_disk": 400, "plan_hash_join_tasks": 220,
+       "plan_indexed_repartition": 55, "plan_blockwise_only": 150, "merge_how_leftsemi": 80, "merge_how_outer": 220,
+       "merge_na_keys": 85, "merge_many_to_many": 600, "merge_int_float_keys": 170, "merge_indicator": 400,
+       "merge_empty_partition": 230, "merge_unknown_divisions": 600, "merge_chained": 70,
+       "asof_compared": 200, "asof_tolerance": 90, "asof_by": 120, "asof_both_multi_partition": 150, "asof_nearest": 65,
+       "asof_forward": 60, "asof_backward": 60,
+       "concat0_compared": 240, "concat0_interleaved_plan": 18, "concat0_different_columns": 170,
+       "concat1_compared": 130, "concat1_repartitioned": 95, "concat1_unknown_aligned": 30, "concat_series_inputs": 140,
+       "cmp_ordered": 550}
+FLOORS = {
+    "quick": {"evaluations": 1600, "distinct_nontrivial": 1400, "counters": dict(_QF),
+              "sets": {"merge_programs": 780, "merge_plans": 140, "asof_programs": 135, "concat_programs": 290},
+              "max_skipped_fraction": 0.15},
+    # thorough = the quick stream x 23 (+ a larger complete block); floors at ~8x the quick floors
+    "thorough": {"evaluations": 13000, "distinct_nontrivial": 11000, "counters": {k: 8 * v for k, v in _QF.items()},
+                 "sets": {"merge_programs": 5000, "merge_plans": 400, "asof_programs": 300, "concat_programs": 2000},
+                 "max_skipped_fraction": 0.15},
+}
 EXHAUSTIVE_SPACE = {
     "quick": "fixed pair of frames (14 x 11 rows, int keys with duplicates and keys missing on both sides) x how in "
              "{inner,left,right,outer,leftsemi} x key form {on, index-index, column-index, index-column} x "
@@ -1112,6 +1145,9 @@ PENDING = {
     "merge:broadcast-join-then-merge-on-same-key:rows":
         "a merge on the key of a preceding BroadcastJoin skips the shuffle (partitioning claimed by "
         "unique_partition_mapping_columns_from_shuffle): rows lost",
+    "merge:broadcast-join-then-merge-on-same-key:ValueError@local.py:start_state_from_dask":
+        "same mechanism with npartitions=: the second merge is built blockwise over partitions the broadcast join "
+        "does not have ('Missing dependency')",
     "merge:broadcast-join&npartitions-arg-flips-broadcast-side:rows":
         "npartitions= <= the smaller partition count: BroadcastJoin derives the broadcast side again and broadcasts the "
         "preserved side of a left/right/leftsemi join: rows duplicated or lost",
@@ -1125,8 +1161,6 @@ PENDING = {
         "how='leftsemi' with left_index=True: zip over left_on=None",
     "merge:right-operand-is-pandas&left_index&right_on:rows":
         "pandas right operand is turned into an index join: right_on column of left-only rows is NaN, pandas fills the key",
-    "merge:categorical-index-key:TypeError@dataframe/backends.py:_union_categoricals_wrapper":
-        "column-index join on a CategoricalIndex with an empty output partition: union_categoricals dtype mismatch at assembly",
     "merge:null-fill-upcast-decided-per-partition:dtype":
         "int->float64 / bool->object upcast for holes is decided per partition; pandas decides on the whole frame",
     "concat0:first-frame-has-categorical-column&inputs-have-different-columns:columns":
